@@ -17,8 +17,9 @@
                          a variable is a write and is checked like any other.)
   * `justified`        — pairs the syntactic lockset cannot credit but for which a happens-before
                          argument (stated next to each entry) or the property's quantifier (shutdown
-                         path) applies.  Keyed by (location, function#goroutine, function#goroutine) —
-                         stable names, no line numbers.  Anything NOT listed is a violation.
+                         path) applies.  Keyed by (location, side, side) with side = (function,
+                         goroutine, write?, holds a mutex?) — stable names, no line numbers.
+                         Anything NOT listed is a violation.
   * `openFindings`     — pairs that are genuine defects recorded in findings/C17.jsonl.
 
   The lockset table is a syntactic over-approximation of "no data race" in the Go memory-model
@@ -46,10 +47,15 @@ def commonLock (a b : Access) : Bool :=
 def guarded (a b : Access) : Bool :=
   (a.atomic && b.atomic) || commonLock a b
 
-/-- (location, function, goroutine, function, goroutine) -/
-abbrev PairKey := Nat × Nat × Nat × Nat × Nat
+/-- one side of a pair: function, goroutine, is it a write, does it hold any mutex -/
+abbrev SideKey := Nat × Nat × Bool × Bool
+/-- (location, side, side).  The key says WHICH accesses of the two goroutines are meant (a
+    locked write against an unlocked read, …): taking a mutex away on either side changes the key,
+    so the pair is no longer covered by an entry below. -/
+abbrev PairKey := Nat × SideKey × SideKey
 
-def keyOf (a b : Access) : PairKey := (a.loc, a.fn, a.thread, b.fn, b.thread)
+def sideOf (a : Access) : SideKey := (a.fn, a.thread, a.write, !a.locks.isEmpty)
+def keyOf (a b : Access) : PairKey := (a.loc, sideOf a, sideOf b)
 
 def keyMatches (k : PairKey) (a b : Access) : Bool :=
   keyOf a b == k || keyOf b a == k
@@ -57,18 +63,19 @@ def keyMatches (k : PairKey) (a b : Access) : Bool :=
 /-- Pairs accepted on a happens-before argument or because they lie outside the property's
     quantifier.  Each entry: key, reason. -/
 def justified : List (PairKey × String) := [
-  -- queue.New: the output goroutine (#2) prints len(queue)/inCount after it has seen closed=true
-  -- under the mutex; the input goroutine (#1) sets closed under the same mutex after its last
-  -- write, so every write of #1 happens before these reads.
-  ((L.queue_New_queue, F.queue_New, 1, F.queue_New, 2),
-    "read after observing closed under the mutex; writer is finished"),
-  ((L.queue_New_inCount, F.queue_New, 1, F.queue_New, 2),
-    "read after observing closed under the mutex; writer is finished"),
+  -- queue.New: the output goroutine (#2) prints len(queue)/inCount WITHOUT the mutex, but only
+  -- after it has seen closed=true under the mutex; the input goroutine (#1) writes queue/inCount
+  -- under the mutex and sets closed under the same mutex after its last write, so every write of
+  -- #1 happens before these reads.
+  ((L.queue_New_queue, (F.queue_New, 1, true, true), (F.queue_New, 2, false, false)),
+    "read after observing closed under the mutex; the locked writer is finished"),
+  ((L.queue_New_inCount, (F.queue_New, 1, true, true), (F.queue_New, 2, false, false)),
+    "read after observing closed under the mutex; the locked writer is finished"),
   -- Serve: grpcErr/httpErr are written when the listeners stop and read on the shutdown path;
   -- shutdown is outside "clients issue calls against a running server".
-  ((L.server_GripServer_Serve_grpcErr, F.server_GripServer_Serve, 0, F.server_GripServer_Serve, 1),
+  ((L.server_GripServer_Serve_grpcErr, (F.server_GripServer_Serve, 0, false, false), (F.server_GripServer_Serve, 1, true, false)),
     "shutdown path, outside the property's quantifier"),
-  ((L.server_GripServer_Serve_httpErr, F.server_GripServer_Serve, 0, F.server_GripServer_Serve, 2),
+  ((L.server_GripServer_Serve_httpErr, (F.server_GripServer_Serve, 0, false, false), (F.server_GripServer_Serve, 2, true, false)),
     "shutdown path, outside the property's quantifier")
 ]
 
